@@ -206,8 +206,8 @@ def r2_autosort_permutation(ctx):
     ctx.check(ok, fn, "every identifier is visited",
               "autosort does not visit every identifier")
     R = Resolver(fn)
-    prec = [lp for lp in loops if "precursor" in norm(lp.iter)
-            or "required" in norm(lp.iter)]
+    prec = [lp for lp in loops if "precursor" in R.text(lp.iter)
+            or "required" in R.text(lp.iter)]
     ctx.check(bool(prec), fn, "precursors of each step are visited",
               "autosort does not iterate over the precursors of a step")
     # precursors = required + optional-if-present
